@@ -1,6 +1,8 @@
 import YV.Drv.XB
 import YV.Spec.YArg
 import YV.Model.YCheck
+import YV.Spec.YRange
+import YV.Proofs.YRangeLex
 import YV.Spec.YRfc
 namespace YV.Drv.Y
 open Lean YV YV.Y YV.YS YV.Drv
@@ -75,9 +77,16 @@ def handle (j : Json) : List (String × Json) :=
         let ps := strOf p; let cs := strOf c
         let cnt := match n.getNat? with | .ok k => k | _ => 0
         let sv := if YR.countOK ps cs cnt then "ok" else "err:1:0 leak=0"
-        [("m", v), ("s", sv), ("dc", Json.bool ((YR.isSlack ps cs && !(ps = "list" && cs = "key")) || ps = "deviate" || ps = "refine" ||
+        [("m", v), ("s", sv), ("dc", Json.bool ((YR.isSlack ps cs && !(ps = "list" && cs = "key") && !(ps = "deviation" && cs = "deviate")) || ps = "deviate" || ps = "refine" ||
             -- "at least one data definition" in a list is an ABNF rule (1*data-def), not a table cell
             (ps = "list" && cs = "leaf" && cnt = 0)))]
+      | _ => [("m", v), ("s", v)]
+    else if jhas j "ext" then
+      -- a statement whose keyword carries a prefix is an extension statement: accepted under every parent; one without is not
+      match jarr j "ext" with
+      | [_, c] =>
+        -- (refused: where, is the model's business — the statement itself is at fault, not its parent)
+        [("m", v), ("s", if (strOf c).toList.contains ':' then "ok" else if v.startsWith "err" then v else "err:1:0 leak=0")]
       | _ => [("m", v), ("s", v)]
     else if jhas j "argkind" then
       -- argument syntax: the RFC 6020 lexer of the keyword's argument decides
@@ -88,8 +97,13 @@ def handle (j : Json) : List (String × Json) :=
       let okS :=
         if k = "KeyArg" then (let ks := YC.splitSeps a; !ks.isEmpty && ks.all YC.idRefOK)
         else if k = "AbsoluteSchemaArg|DescendantSchemaArg" then YC.augmentOK a
+        -- range / length: the ABNF read as a scanner (Spec.YRange), not the split-and-trim of the code
+        else if k = "RangeArg" then YS.rangeArgOK a
+        else if k = "LengthArg" then YS.lengthArgOK a
         else YC.argOK k a
-      [("m", v), ("s", if okS then "ok" else "err:1:0 leak=0")]
+      -- which side of ".." a keyword stands on is not a lexical matter ("max..min", "5..min": refused here or later)
+      let sides := (k = "RangeArg" || k = "LengthArg") && okS && !YC.sidesOK a
+      [("m", v), ("s", if okS then "ok" else "err:1:0 leak=0"), ("dc", Json.bool sides)]
     else [("m", v), ("s", v)]
   else [("m", m), ("s", m)]
 
